@@ -1,29 +1,31 @@
-(* C19  asyncio adapter stays consistent under any event-loop schedule (model level; see docs/C19.md). *)
-From AQ Require Import lib.Base model.Adapter model.Router proofs.AdapterProofs proofs.RouterProofs.
+(* C19  asyncio adapter stays consistent under any event-loop schedule (model level; see docs/C19.md).
+   fx = the checked tree has the repair of finding F4 (transmit() drains the event queue after sending); the
+   harness probes it on the running code.  The adapter theorems hold for both values. *)
+From AQ Require Import lib.Base model.Adapter model.Router model.ServerComp proofs.AdapterProofs proofs.RouterProofs proofs.ServerCompProofs.
 
 (* waiter_exactly_once, part 1: for every sequence of callbacks, API calls and event lists, no step ever
    resolves a future twice (set_result/set_exception never raises InvalidStateError). *)
-Theorem waiter_never_resolved_twice : forall ops o,
-  fst (fst (step (run st_init ops) o)) <> Some X_INVALID_STATE.
+Theorem waiter_never_resolved_twice : forall fx ops o,
+  fst (fst (step fx (run fx st_init ops) o)) <> Some X_INVALID_STATE.
 Proof. exact waiter_never_resolved_twice_l. Qed.
 Print Assumptions waiter_never_resolved_twice.
 
 (* waiter_exactly_once, part 2: once a datagram / timer callback has processed ConnectionTerminated, every
    future created so far (connect waiter, ping waiters) is resolved. *)
-Theorem waiter_all_resolved_at_termination : forall ops evs gt etx out s',
-  uids_fresh st_init ops ->
-  let s := run st_init ops in
+Theorem waiter_all_resolved_at_termination : forall fx ops evs gt etx out s',
+  uids_fresh fx st_init ops ->
+  let s := run fx st_init ops in
   In (EvTerminated 0) (evq s ++ evs) ->
-  step s (ORecv evs gt etx) = (None, out, s') ->
+  step fx s (ORecv evs gt etx) = (None, out, s') ->
   forall i, nth_error (futs s') i <> Some FPending.
 Proof. exact waiter_all_resolved_at_termination_l. Qed.
 Print Assumptions waiter_all_resolved_at_termination.
 
-Theorem waiter_all_resolved_at_termination_timer : forall ops w now evs gt etx out s',
-  uids_fresh st_init ops ->
-  let s := run st_init ops in
+Theorem waiter_all_resolved_at_termination_timer : forall fx ops w now evs gt etx out s',
+  uids_fresh fx st_init ops ->
+  let s := run fx st_init ops in
   In (EvTerminated 0) (evq s ++ evs) ->
-  step s (OTimer w now evs gt etx) = (None, out, s') ->
+  step fx s (OTimer w now evs gt etx) = (None, out, s') ->
   forall i, nth_error (futs s') i <> Some FPending.
 Proof. exact waiter_all_resolved_at_termination_timer_l. Qed.
 Print Assumptions waiter_all_resolved_at_termination_timer.
@@ -31,38 +33,40 @@ Print Assumptions waiter_all_resolved_at_termination_timer.
 (* ... and from then on none is pending ever again: whenever the closed event is set, at any point of any
    schedule, no future is pending (with C19-fix-1; before the fix a ping() issued after termination stayed
    pending forever -- docs/C19.md F1). *)
-Theorem no_waiter_pending_once_closed : forall ops, uids_fresh st_init ops ->
-  closed (run st_init ops) = true -> forall i, nth_error (futs (run st_init ops)) i <> Some FPending.
+Theorem no_waiter_pending_once_closed : forall fx ops, uids_fresh fx st_init ops ->
+  closed (run fx st_init ops) = true -> forall i, nth_error (futs (run fx st_init ops)) i <> Some FPending.
 Proof. exact no_waiter_pending_once_closed_l. Qed.
 Print Assumptions no_waiter_pending_once_closed.
 
 (* every waiter "created" after termination finishes immediately: ping() raises ConnectionError without
    creating a future or touching the state, wait_connected() returns or raises ConnectionError, a reader
    from create_stream() is already at EOF *)
-Theorem api_after_termination : forall s, closed s = true ->
-  (forall uid gt e, step s (OPing uid gt e) = (Some X_CONNECTION_ERROR, [], s)) /\
-  (cwait s = None -> step s OWaitConnected = (if connected s then (None, [1], s) else (Some X_CONNECTION_ERROR, [], s))) /\
-  (forall sid out s', step s (OCreateStream sid) = (None, out, s') ->
+Theorem api_after_termination : forall fx s, closed s = true ->
+  (forall uid gt e, step fx s (OPing uid gt e) = (Some X_CONNECTION_ERROR, [], s)) /\
+  (cwait s = None -> step fx s OWaitConnected = (if connected s then (None, [1], s) else (Some X_CONNECTION_ERROR, [], s))) /\
+  (forall sid out s', step fx s (OCreateStream sid) = (None, out, s') ->
      exists r, rd_get sid (readers s') = Some r /\ rd_eof r = true /\ rd_buf r = []).
 Proof. exact api_after_termination_l. Qed.
 Print Assumptions api_after_termination.
 
 (* the loop holds exactly the timer handle _timer refers to (never two), with deadline _timer_at, and
    _handle_timer never runs with _timer_at = None *)
-Theorem timer_single : forall ops,
-  let s := run st_init ops in
+Theorem timer_single : forall fx ops,
+  let s := run fx st_init ops in
   ltimers s = match timer s with Some w => [w] | None => [] end /\
   (forall w, timer s = Some w -> timer_at s = Some w) /\
-  forall o, fst (fst (step s o)) <> Some X_TIMER_NONE.
+  forall o, fst (fst (step fx s o)) <> Some X_TIMER_NONE.
 Proof. exact timer_single_l. Qed.
 Print Assumptions timer_single.
 
 (* transmit_not_lost: while written stream data has not been followed by transmit(), a call_soon(transmit)
-   handle is pending in the loop, and running it transmits *)
-Theorem transmit_not_lost : forall ops,
-  let s := run st_init ops in
+   handle is pending in the loop, and running it transmits (with the F4 repair a handler may raise during the
+   drain that follows the sending; the data has left by then) *)
+Theorem transmit_not_lost : forall fx ops,
+  let s := run fx st_init ops in
   (dirty s = true -> soon s <> O) /\
-  (soon s <> O -> forall gt e, exists out s', step s (ORunSoon gt e) = (None, out, s') /\ dirty s' = false).
+  (soon s <> O -> forall gt e, exists x out s', step fx s (ORunSoon gt e) = (x, out, s') /\ dirty s' = false /\
+                                              (fx = false -> x = None)).
 Proof. exact transmit_not_lost_l. Qed.
 Print Assumptions transmit_not_lost.
 
@@ -118,3 +122,41 @@ Theorem retry_state_only_for_valid_token :
   d_token d <> 0 /\ exists o r, d_token d = mk (d_addr d) o r.
 Proof. exact retry_state_only_for_valid_token_l. Qed.
 Print Assumptions retry_state_only_for_valid_token.
+
+(* ---- the composition QuicServer + its protocols (coq/model/ServerComp.v), finding F4 and its repair ---- *)
+
+(* announced_cid_routable (tree WITH the repair, fx = true): in every reachable state of the composition, when a
+   step that runs transmit() of protocol p (datagram_received, _handle_timer, the deferred transmit, transmit(),
+   close(), ping()) returns normally, every connection ID p has put into a NEW_CONNECTION_ID frame handed to the
+   transport -- not seen retired by the server, p not terminated, server not closed -- is routed to p.
+   sfresh: cids named by ConnectionIdIssued events / registered at creation do not collide with cids announced by
+   or waiting in ANOTHER protocol (os.urandom; example sfresh_example in ServerCompProofs.v). *)
+Theorem announced_cid_routable : forall ops o out s',
+  sfresh true sst_init (ops ++ [o]) ->
+  let s := srun true sst_init ops in
+  sstep true s o = (None, out, s') -> s_closed s' = false ->
+  forall p, transmitter s o = Some p ->
+  forall c, In (c, p) (s_ann s') -> t_get c (s_tbl s') = Some p.
+Proof. exact announced_cid_routable_l. Qed.
+Print Assumptions announced_cid_routable.
+
+(* both trees: an announced connection ID is routed, or its ConnectionIdIssued event is still waiting inside the
+   protocol's connection (without the repair that is where it stays until the next callback: F4; with the repair
+   only after a handler raised) *)
+Theorem announced_cid_routed_or_queued : forall fx ops, sfresh fx sst_init ops ->
+  let s := srun fx sst_init ops in
+  s_closed s = false ->
+  forall c p, In (c, p) (s_ann s) ->
+    t_get c (s_tbl s) = Some p \/ exists a, p_get p (s_prots s) = Some a /\ In c (issued_cids (evq a)).
+Proof. exact announced_cid_routed_or_queued_l. Qed.
+Print Assumptions announced_cid_routed_or_queued.
+
+(* F4 at model level: without the repair announced_cid_routable fails on the first flight of a connection
+   (protocol 0 announces cid 7, its transmit() returns, 7 is not routed); same trace with the repair: routed *)
+Theorem announced_cid_unroutable_without_repair :
+  sfresh false sst_init f4_trace /\
+  let s := srun false sst_init f4_trace in
+  s_closed s = false /\ In (7, 0) (s_ann s) /\ t_get 7 (s_tbl s) = None /\
+  t_get 7 (s_tbl (srun true sst_init f4_trace)) = Some 0.
+Proof. exact announced_cid_unroutable_without_repair_l. Qed.
+Print Assumptions announced_cid_unroutable_without_repair.
